@@ -608,3 +608,35 @@ def window_steps(ctx, prog):
             ok = True
             why = "match form: Some(w | log << 42) on Some, None on None"
     ctx.ob(RF, "IndexWindows::next = inner.next().map(|w| w | (log_block_size << 42))", ok, why, g.loc())
+
+
+def distance_exits(ctx, prog):
+    """edit_distance_internal: the frame around the bit-parallel recurrence - one result, `len(self) + len(other) - 2 * zeros(v)`, v
+    starting as all ones and carried over EVERY symbol of `other` (no early result, no skipped prefix).  The recurrence itself is C08."""
+    import re
+    f = prog.fn("BlockHashPositionArrayImplInternal::edit_distance_internal")
+    ctx.visit(f)
+    sy = Sym(f)
+    res = []
+    for i, j, s in f.stmts():
+        if s["s"] == "assign" and s["lhs"]["l"] == 0 and not s["lhs"]["p"]:
+            res.append(re.sub(r"::<[^()]*>\(", "(", canon(strip(sy.rvalue(s["rv"])))))
+    for i, t in f.calls():
+        if t["dest"]["l"] == 0 and not t["dest"]["p"]:
+            res.append("call " + callee_of(t))
+    res = [re.sub(r"^\((\w+)WithOverflow\((.*)\)\)\.0$", r"\1(\2)", r) for r in res]
+    m = None
+    if len(res) == 1:
+        m = re.match(r"^Sub\(Add\(\(internals::compare::position_array::BlockHashPositionArrayData::len\(param:self\) as u32\),\(core::slice::<impl \[T\]>::len\(param:other\) as u32\)\),Mul\(2,core::num::<impl u64>::count_zeros\(local:\w+_(\d+)\)\)\)$", res[0])
+    ok = m is not None
+    why = "results: %s" % [r[:140] for r in res]
+    if ok:
+        v = int(m.group(1))
+        ds = [canon(strip(sy.rvalue(x))) if k == "rv" else "call" for (b, _i, k, x) in f.defs.get(v, [])]
+        inits = [d for d in ds if "local:%s_%d" % (f.locals[v]["name"], v) not in d]
+        ok = inits == ["Not(0)"] and len(ds) == 2
+        why = "accumulator definitions %s" % [d[:60] for d in ds]
+        srcs = [re.sub(r"^<I as core::iter::IntoIterator>::into_iter\((.*)\)$", r"\1", canon(strip(sy.origin(strip(sy.operand(t["args"][0])))))) for i, t in f.calls() if callee_of(t).endswith("::next")]
+        ok = ok and srcs == ["core::slice::<impl [T]>::iter(param:other)"]
+        why += "; walks %s" % srcs
+    ctx.ob("SA-FORMULA", "edit_distance_internal: single result len(self)+len(other)-2*zeros(v), v from all-ones over every symbol of `other`", ok, why, f.loc())
